@@ -358,6 +358,7 @@ let cli_model fixed (c : cfg) nnames (argb : int list) (argr : bool) (lines : st
       | "da" -> List.iter (fun k -> ignore (issue [M.CDel (nat_of_int k)])) (List.init nnames (fun i -> i))
       | "l" -> let v = List.sort compare (List.map (fun r -> string_of_int (int_of_n r)) !s.M.bps) in
         obs := ("L" ^ String.concat "+" v) :: !obs
+      | "g" | "i" | "id" -> ()   (* the same grammar / input text loaded again: the next run parses what the earlier ones parsed *)
       | x when x.[0] = 'b' -> ignore (issue [M.CAdd [nat_of_int (int_of_string (String.sub x 1 (String.length x - 1)))]])
       | x when x.[0] = 'd' -> ignore (issue [M.CDel (nat_of_int (int_of_string (String.sub x 1 (String.length x - 1))))])
       | _ -> failwith "bad cli line") lines;
@@ -399,6 +400,7 @@ let cli_spec (c : cfg) (argb : int list) (argr : bool) (lines : string list) (im
           | `At i -> deliver i "continue")
       | "ba" -> List.iter add c.grules
       | "da" -> set := []
+      | "g" | "i" | "id" -> ()
       | "l" -> let v = "L" ^ String.concat "+" (List.sort compare (List.map string_of_int !set)) in
         let g = pop () in if g <> v then fail (Printf.sprintf "list printed %s, breakpoints are %s" g v)
       | x when x.[0] = 'b' -> add (int_of_string (String.sub x 1 (String.length x - 1)))
@@ -415,7 +417,7 @@ let cli_session (c : cfg) nnames =
   let lines = List.init len (fun _ ->
       match below 16 with
       | 0 | 1 -> "r" | 2 | 3 | 4 | 5 | 6 | 7 -> "c" | 8 | 9 -> "b" ^ string_of_int (pick ()) | 10 -> "d" ^ string_of_int (pick ())
-      | 11 -> "ba" | 12 -> "da" | 13 -> "l" | _ -> "c") in
+      | 11 -> "ba" | 12 -> "da" | 13 -> "l" | 14 -> [| "id"; "i"; "g" |].(below 3) | _ -> "c") in
   let lines = if argr || below 3 = 0 then lines else
       (List.init (below 3) (fun _ -> "b" ^ string_of_int (pick ()))) @ ["r"] @ lines in
   Printf.printf "%s\t%s\t%d\t%s\n" c.id (String.concat "," (List.map string_of_int argb)) (if argr then 1 else 0) (String.concat "," lines)
@@ -454,7 +456,12 @@ let () =
     List.iter (fun c ->
         let nn = Hashtbl.find names c.id in
         List.iter (fun k -> Printf.printf "%s\t%d\t1\tc,c,c,c\n" c.id k) (List.init nn (fun i -> i));
-        Printf.printf "%s\t\t0\tba,r,c,c,l\n" c.id) !cfgs;
+        Printf.printf "%s\t\t0\tba,r,c,c,l\n" c.id;
+        (* to the very end of the parse: what was loaded decides the late stops *)
+        let cs = String.concat "," (List.init (List.length c.entries + 2) (fun _ -> "c")) in
+        Printf.printf "%s\t\t0\tid,ba,r,%s\n" c.id cs;
+        Printf.printf "%s\t\t0\tg,i,ba,r,%s\n" c.id cs;
+        Printf.printf "%s\t\t0\tba,r,c,id,r,%s\n" c.id cs) !cfgs;
     if n > 0 then for i = 1 to nrandom do let c = List.nth !cfgs (i mod n) in cli_session c (Hashtbl.find names c.id) done
   end else if mode = "cli" then begin
     let n = ref 0 in
